@@ -296,3 +296,936 @@ Proof.
   | |- context [if ?c then _ else _] => destruct c
   end; try apply iwf_top; apply iwf_mk; assumption.
 Qed.
+
+(* ---------------------------------------------------------------- meet, equality *)
+
+
+Lemma leq_bot_l a x : is_bottom a = true -> wi_leq a x = true.
+Proof. intros B. unfold wi_leq. rewrite B, orb_true_r. reflexivity. Qed.
+
+Lemma meet_sound w a x v : iwf w a -> iwf w x -> gamma w a v -> gamma w x v -> gamma w (wi_meet a x) v.
+Proof.
+  intros Wa Wx Ga Gx. unfold wi_meet.
+  destruct (wi_leq a x) eqn:L1; [exact Ga|].
+  destruct (wi_leq x a) eqn:L2; [exact Gx|].
+  destruct (not_leq_ranges w a x Wa Wx L1 L2) as ((Ba & Ta & Hs & He) & (Bx & Tx & Hxs & Hxe)).
+  pose proof (gamma_inb w a v Ba Ta Hs He Ga) as Ia.
+  pose proof (gamma_inb w x v Bx Tx Hxs Hxe Gx) as Ix.
+  assert (wfw w v) as Hv by apply Ga.
+  rewrite (leq_inb w) in L1, L2 by assumption.
+  repeat rewrite (at_inb w) by assumption.
+  zranges.
+  match goal with |- context [if wlt ?p ?q || ?r then _ else _] => generalize (wlt p q || r) end.
+  intros gapc.
+  repeat match goal with
+  | |- context [if ?c then _ else _] => let E := fresh "E" in destruct c eqn:E
+  end; try assumption; try (apply gamma_mk_inb; [assumption|assumption|assumption|]).
+  all: clear Wa Wx Ba Ta Bx Tx Hs He Hxs Hxe Hv Ga Gx; unfold inb in *; dec_all.
+Qed.
+
+Lemma iwf_meet w a x : iwf w a -> iwf w x -> iwf w (wi_meet a x).
+Proof.
+  intros Wa Wx. unfold wi_meet.
+  destruct (wi_leq a x) eqn:L1; [exact Wa|].
+  destruct (wi_leq x a) eqn:L2; [exact Wx|].
+  destruct (not_leq_ranges w a x Wa Wx L1 L2) as ((Ba & Ta & Hs & He) & (Bx & Tx & Hxs & Hxe)).
+  repeat match goal with
+  | |- context [if ?c then _ else _] => destruct c
+  end; try assumption; try apply iwf_bottom; apply iwf_mk; assumption.
+Qed.
+
+Lemma eq_sound w a x v : iwf w a -> iwf w x -> wi_eq a x = true -> (gamma w a v <-> gamma w x v).
+Proof.
+  intros Wa Wx E. unfold wi_eq in E. apply andb_true_iff in E. destruct E as [E1 E2].
+  split; intros G; [exact (leq_sound w a x v Wa Wx E1 G)|exact (leq_sound w x a v Wx Wa E2 G)].
+Qed.
+
+(* ---------------------------------------------------------------- addition, subtraction, negation *)
+
+
+Lemma madd_cases M a b : 0 <= a < M -> 0 <= b < M ->
+  ((a + b) mod M = a + b /\ a + b < M) \/ ((a + b) mod M = a + b - M /\ M <= a + b).
+Proof.
+  intros Ha Hb. destruct (Z_lt_ge_dec (a + b) M).
+  - left. split; [apply Z.mod_small; lia|lia].
+  - right. split; [|lia]. symmetry. apply (Z.mod_unique (a + b) M 1); lia.
+Qed.
+
+(* the overflow test of operator+ / operator-: x_sz + sz + 1 <= x_sz (mod M) is false exactly
+   when the two lengths add up to less than M - 1 *)
+Lemma no_overflow_Z M la lx : 1 < M -> 0 <= la < M -> 0 <= lx < M ->
+  (((lx + la) mod M + 1 mod M) mod M <=? lx) = false -> lx + la + 1 < M.
+Proof.
+  intros HM Ha Hx H. apply Z.leb_gt in H.
+  rewrite (Z.mod_small 1 M) in H by lia.
+  destruct (madd_cases M lx la Hx Ha) as [[E1 ?]|[E1 ?]]; rewrite E1 in H.
+  - destruct (Z.eq_dec (lx + la + 1) M) as [EQ|NE]; [|lia].
+    rewrite EQ, Z.mod_same in H by lia. lia.
+  - rewrite Z.mod_small in H by lia. lia.
+Qed.
+
+Lemma add_Z M s e xs xe v y : 0 < M ->
+  (xe - xs) mod M + (e - s) mod M + 1 < M ->
+  (v - s) mod M <= (e - s) mod M -> (y - xs) mod M <= (xe - xs) mod M ->
+  ((v + y) mod M - (s + xs) mod M) mod M <= ((e + xe) mod M - (s + xs) mod M) mod M.
+Proof.
+  intros HM NO Hv Hy.
+  pose proof (Z.mod_pos_bound (v - s) M HM). pose proof (Z.mod_pos_bound (y - xs) M HM).
+  pose proof (Z.mod_pos_bound (e - s) M HM). pose proof (Z.mod_pos_bound (xe - xs) M HM).
+  replace (((v + y) mod M - (s + xs) mod M) mod M) with (((v - s) mod M + (y - xs) mod M) mod M)
+    by (rewrite <- Zminus_mod, <- Zplus_mod; f_equal; lia).
+  replace (((e + xe) mod M - (s + xs) mod M) mod M) with (((e - s) mod M + (xe - xs) mod M) mod M)
+    by (rewrite <- Zminus_mod, <- Zplus_mod; f_equal; lia).
+  rewrite (Z.mod_small ((v - s) mod M + (y - xs) mod M)) by lia.
+  rewrite (Z.mod_small ((e - s) mod M + (xe - xs) mod M)) by lia. lia.
+Qed.
+
+(* distance to the end of an interval *)
+Lemma dist_end_Z M s e v : 0 < M -> (v - s) mod M <= (e - s) mod M ->
+  (e - v) mod M = (e - s) mod M - (v - s) mod M.
+Proof.
+  intros HM H.
+  pose proof (Z.mod_pos_bound (v - s) M HM). pose proof (Z.mod_pos_bound (e - s) M HM).
+  replace (e - v) with ((e - s) - (v - s)) by lia. rewrite Zminus_mod. apply Z.mod_small. lia.
+Qed.
+
+Lemma sub_Z M s e xs xe v y : 0 < M ->
+  (xe - xs) mod M + (e - s) mod M + 1 < M ->
+  (v - s) mod M <= (e - s) mod M -> (y - xs) mod M <= (xe - xs) mod M ->
+  ((v - y) mod M - (s - xe) mod M) mod M <= ((e - xs) mod M - (s - xe) mod M) mod M.
+Proof.
+  intros HM NO Hv Hy.
+  pose proof (Z.mod_pos_bound (v - s) M HM). pose proof (Z.mod_pos_bound (y - xs) M HM).
+  pose proof (Z.mod_pos_bound (e - s) M HM). pose proof (Z.mod_pos_bound (xe - xs) M HM).
+  pose proof (dist_end_Z M xs xe y HM Hy) as D.
+  replace (((v - y) mod M - (s - xe) mod M) mod M) with (((v - s) mod M + (xe - y) mod M) mod M)
+    by (rewrite <- Zminus_mod, <- Zplus_mod; f_equal; lia).
+  replace (((e - xs) mod M - (s - xe) mod M) mod M) with (((e - s) mod M + (xe - xs) mod M) mod M)
+    by (rewrite <- Zminus_mod, <- Zplus_mod; f_equal; lia).
+  rewrite D.
+  rewrite (Z.mod_small ((v - s) mod M + ((xe - xs) mod M - (y - xs) mod M))) by lia.
+  rewrite (Z.mod_small ((e - s) mod M + (xe - xs) mod M)) by lia. lia.
+Qed.
+
+Lemma neg_Z M s e v : 0 < M -> (v - s) mod M <= (e - s) mod M ->
+  ((- v) mod M - (- e) mod M) mod M <= ((- s) mod M - (- e) mod M) mod M.
+Proof.
+  intros HM Hv.
+  pose proof (Z.mod_pos_bound (v - s) M HM). pose proof (Z.mod_pos_bound (e - s) M HM).
+  pose proof (dist_end_Z M s e v HM Hv) as D.
+  replace (((- v) mod M - (- e) mod M) mod M) with ((e - v) mod M)
+    by (rewrite <- Zminus_mod; f_equal; lia).
+  replace (((- s) mod M - (- e) mod M) mod M) with ((e - s) mod M)
+    by (rewrite <- Zminus_mod; f_equal; lia).
+  lia.
+Qed.
+
+Lemma pow2_gt1 w : 1 <= w -> 1 < 2 ^ w.
+Proof. intros. change 1 with (2 ^ 0) at 1. apply Z.pow_lt_mono_r; lia. Qed.
+
+Lemma wmk_one w : 1 <= w <= 64 -> wfw w (wmk 1 w) /\ wn (wmk 1 w) = 1 mod 2 ^ w.
+Proof.
+  intros H. destruct (wmk_spec 1 w H) as (A & B & C); [split; [lia|reflexivity]|].
+  split; [split; assumption|exact C].
+Qed.
+
+Lemma gamma_cases w i v : iwf w i -> gamma w i v ->
+  is_bottom i = false /\
+  (is_top i = true \/
+   (is_top i = false /\ wbot i = false /\ wfw w (wstart i) /\ wfw w (wend i) /\
+    (wn v - wn (wstart i)) mod 2 ^ w <= (wn (wend i) - wn (wstart i)) mod 2 ^ w)).
+Proof.
+  intros W G. destruct (is_bottom i) eqn:B; [elim (gamma_bot w i v B G)|]. split; [reflexivity|].
+  destruct (is_top i) eqn:T; [left; reflexivity|right].
+  destruct (iwf_range w i W B T) as (B' & Hs & He).
+  split; [reflexivity|]. split; [exact B'|]. split; [exact Hs|]. split; [exact He|].
+  eapply gamma_range; eassumption.
+Qed.
+
+Lemma add_sound w a x v y : iwf w a -> iwf w x -> gamma w a v -> gamma w x y ->
+  gamma w (wi_add a x) (wadd v y).
+Proof.
+  intros Wa Wx Ga Gx.
+  destruct (gamma_cases w a v Wa Ga) as (Ba & Ca). destruct (gamma_cases w x y Wx Gx) as (Bx & Cx).
+  assert (wfw w v) as Hv by apply Ga. assert (wfw w y) as Hy by apply Gx.
+  destruct (wadd_val w v y Hv Hy) as [Hr Vr].
+  unfold wi_add. rewrite Ba, Bx. cbn [orb].
+  destruct Ca as [Ta|(Ta & Ba' & Hs & He & Ia)]; [rewrite Ta; cbn [orb]; apply gamma_top; [reflexivity|exact Hr]|].
+  destruct Cx as [Tx|(Tx & Bx' & Hxs & Hxe & Ix)];
+    [rewrite Tx, orb_true_r; apply gamma_top; [reflexivity|exact Hr]|].
+  rewrite Ta, Tx. cbn [orb].
+  pose proof (wfw_range _ _ Hs) as [Hw _].
+  destruct (wsub_val w _ _ Hxe Hxs) as [Hxsz Vxsz]. destruct (wsub_val w _ _ He Hs) as [Hsz Vsz].
+  assert (get_bitwidth (wsub (wend x) (wstart x)) = w) as BW by apply Hxsz. rewrite BW.
+  destruct (wmk_one w Hw) as [Hone Vone].
+  destruct (wadd_val w _ _ Hxsz Hsz) as [H1 V1]. destruct (wadd_val w _ _ H1 Hone) as [H2 V2].
+  unfold wle. rewrite V2, V1, Vone, Vxsz, Vsz.
+  pose proof (pow2_gt1 w ltac:(lia)) as M1.
+  destruct (_ <=? _) eqn:OV; [apply gamma_top; [reflexivity|exact Hr]|].
+  apply no_overflow_Z in OV; [|lia|apply Z.mod_pos_bound; lia|apply Z.mod_pos_bound; lia].
+  destruct (wadd_val w _ _ Hs Hxs) as [Hrs Vrs]. destruct (wadd_val w _ _ He Hxe) as [Hre Vre].
+  apply gamma_mk; [exact Hrs|exact Hre|exact Hr|]. rewrite Vr, Vrs, Vre.
+  apply add_Z; [lia|exact OV|exact Ia|exact Ix].
+Qed.
+
+Lemma sub_sound w a x v y : iwf w a -> iwf w x -> gamma w a v -> gamma w x y ->
+  gamma w (wi_sub a x) (wsub v y).
+Proof.
+  intros Wa Wx Ga Gx.
+  destruct (gamma_cases w a v Wa Ga) as (Ba & Ca). destruct (gamma_cases w x y Wx Gx) as (Bx & Cx).
+  assert (wfw w v) as Hv by apply Ga. assert (wfw w y) as Hy by apply Gx.
+  destruct (wsub_val w v y Hv Hy) as [Hr Vr].
+  unfold wi_sub. rewrite Ba, Bx. cbn [orb].
+  destruct Ca as [Ta|(Ta & Ba' & Hs & He & Ia)]; [rewrite Ta; cbn [orb]; apply gamma_top; [reflexivity|exact Hr]|].
+  destruct Cx as [Tx|(Tx & Bx' & Hxs & Hxe & Ix)];
+    [rewrite Tx, orb_true_r; apply gamma_top; [reflexivity|exact Hr]|].
+  rewrite Ta, Tx. cbn [orb].
+  pose proof (wfw_range _ _ Hs) as [Hw _].
+  destruct (wsub_val w _ _ Hxe Hxs) as [Hxsz Vxsz]. destruct (wsub_val w _ _ He Hs) as [Hsz Vsz].
+  assert (get_bitwidth (wsub (wend x) (wstart x)) = w) as BW by apply Hxsz. rewrite BW.
+  destruct (wmk_one w Hw) as [Hone Vone].
+  destruct (wadd_val w _ _ Hxsz Hsz) as [H1 V1]. destruct (wadd_val w _ _ H1 Hone) as [H2 V2].
+  unfold wle. rewrite V2, V1, Vone, Vxsz, Vsz.
+  pose proof (pow2_gt1 w ltac:(lia)) as M1.
+  destruct (_ <=? _) eqn:OV; [apply gamma_top; [reflexivity|exact Hr]|].
+  apply no_overflow_Z in OV; [|lia|apply Z.mod_pos_bound; lia|apply Z.mod_pos_bound; lia].
+  destruct (wsub_val w _ _ Hs Hxe) as [Hrs Vrs]. destruct (wsub_val w _ _ He Hxs) as [Hre Vre].
+  apply gamma_mk; [exact Hrs|exact Hre|exact Hr|]. rewrite Vr, Vrs, Vre.
+  apply sub_Z; [lia|exact OV|exact Ia|exact Ix].
+Qed.
+
+Lemma neg_sound w a v : iwf w a -> gamma w a v -> gamma w (wi_neg a) (wneg v).
+Proof.
+  intros Wa Ga.
+  destruct (gamma_cases w a v Wa Ga) as (Ba & Ca).
+  assert (wfw w v) as Hv by apply Ga.
+  destruct (wneg_val w v Hv) as [Hr Vr].
+  unfold wi_neg. rewrite Ba.
+  destruct Ca as [Ta|(Ta & Ba' & Hs & He & Ia)]; rewrite Ta; [apply gamma_top; [reflexivity|exact Hr]|].
+  pose proof (wfw_range _ _ Hs) as [Hw _].
+  destruct (wneg_val w _ He) as [Hrs Vrs]. destruct (wneg_val w _ Hs) as [Hre Vre].
+  apply gamma_mk; [exact Hrs|exact Hre|exact Hr|]. rewrite Vr, Vrs, Vre.
+  apply neg_Z; [apply pow2_pos; lia|exact Ia].
+Qed.
+
+Lemma iwf_add w a x : iwf w a -> iwf w x -> iwf w (wi_add a x).
+Proof.
+  intros Wa Wx. unfold wi_add.
+  destruct (is_bottom a) eqn:Ba; [apply iwf_bottom|]. destruct (is_bottom x) eqn:Bx; [apply iwf_bottom|].
+  destruct (is_top a) eqn:Ta; [apply iwf_top|]. destruct (is_top x) eqn:Tx; [apply iwf_top|]. simpl.
+  destruct (iwf_range w a Wa Ba Ta) as (_ & Hs & He). destruct (iwf_range w x Wx Bx Tx) as (_ & Hxs & Hxe).
+  destruct (wle _ _); [apply iwf_top|]. apply iwf_mk; eapply wadd_val; eassumption.
+Qed.
+Lemma iwf_sub w a x : iwf w a -> iwf w x -> iwf w (wi_sub a x).
+Proof.
+  intros Wa Wx. unfold wi_sub.
+  destruct (is_bottom a) eqn:Ba; [apply iwf_bottom|]. destruct (is_bottom x) eqn:Bx; [apply iwf_bottom|].
+  destruct (is_top a) eqn:Ta; [apply iwf_top|]. destruct (is_top x) eqn:Tx; [apply iwf_top|]. simpl.
+  destruct (iwf_range w a Wa Ba Ta) as (_ & Hs & He). destruct (iwf_range w x Wx Bx Tx) as (_ & Hxs & Hxe).
+  destruct (wle _ _); [apply iwf_top|]. apply iwf_mk; eapply wsub_val; eassumption.
+Qed.
+Lemma iwf_neg w a : iwf w a -> iwf w (wi_neg a).
+Proof.
+  intros Wa. unfold wi_neg.
+  destruct (is_bottom a) eqn:Ba; [apply iwf_bottom|]. destruct (is_top a) eqn:Ta; [apply iwf_top|].
+  destruct (iwf_range w a Wa Ba Ta) as (_ & Hs & He). apply iwf_mk; eapply wneg_val; eassumption.
+Qed.
+
+(* ---------------------------------------------------------------- widening, default operators, constructors *)
+
+
+Lemma wmk_wfw n w : 1 <= w <= 64 -> 0 <= n < 2 ^ 64 -> wfw w (wmk n w) /\ wn (wmk n w) = n mod 2 ^ w.
+Proof.
+  intros H Hn. destruct (wmk_spec n w H Hn) as (A & B & C). split; [split; assumption|exact C].
+Qed.
+
+Lemma wmk_small_wfw n w : 1 <= w <= 64 -> 0 <= n < 2 ^ 64 -> wfw w (wmk n w).
+Proof. intros. apply wmk_wfw; assumption. Qed.
+
+Lemma widen_sound w a x r v : iwf w a -> iwf w x -> wi_widen a x = Some r ->
+  gamma w a v \/ gamma w x v -> gamma w r v.
+Proof.
+  intros Wa Wx R G. unfold wi_widen in R.
+  assert (wfw w v) as Hv by (destruct G as [[H _]|[H _]]; exact H).
+  destruct (is_bottom a) eqn:Ba.
+  { inversion R; subst r. destruct G as [G|G]; [elim (gamma_bot w a v Ba G)|exact G]. }
+  destruct (is_bottom x) eqn:Bx.
+  { inversion R; subst r. destruct G as [G|G]; [exact G|elim (gamma_bot w x v Bx G)]. }
+  destruct (is_top a || is_top x) eqn:TT.
+  { inversion R; subst r. apply gamma_top; [reflexivity|exact Hv]. }
+  apply orb_false_iff in TT. destruct TT as [Ta Tx].
+  destruct (wi_leq x a) eqn:L.
+  { inversion R; subst r. destruct G as [G|G]; [exact G|exact (leq_sound w x a v Wx Wa L G)]. }
+  destruct (iwf_range w a Wa Ba Ta) as (_ & Hs & He). destruct (iwf_range w x Wx Bx Tx) as (_ & Hxs & Hxe).
+  pose proof (wfw_range _ _ Hs) as [Hw _].
+  assert (get_bitwidth (wstart x) = w) as BW by apply Hxs. rewrite BW in R.
+  match type of R with obind ?m _ = _ => destruct m as [mx|] end; [|discriminate]. cbn [obind] in R.
+  pose proof (join_sound w a x v Wa Wx G) as GJ. pose proof (iwf_join w a x Wa Wx) as WJ.
+  assert (forall n, 0 <= n < 2 ^ 64 -> wfw w (wmk n w)) as K by (intros; apply wmk_small_wfw; assumption).
+  assert (wfw w (wmk 8 w)) as K8 by (apply K; split; [lia|reflexivity]).
+  assert (wfw w (wmk 7 w)) as K7 by (apply K; split; [lia|reflexivity]).
+  destruct (wge _ _); [inversion R; subst r; apply gamma_top; [reflexivity|exact Hv]|].
+  destruct (wi_eq (wi_join a x) (wi_mk (wstart a) (wend x))).
+  { inversion R; subst r. apply join_sound; [exact WJ| |left; exact GJ].
+    apply iwf_mk; [exact Hs|].
+    apply wadd_val; [|exact K7]. apply wsub_val; apply wmul_val; assumption. }
+  destruct (wi_eq (wi_join a x) (wi_mk (wstart x) (wend a))).
+  { inversion R; subst r. apply join_sound; [exact WJ| |left; exact GJ].
+    apply iwf_mk; [|exact He].
+    apply wsub_val; [|exact K7]. apply wsub_val; apply wmul_val; assumption. }
+  destruct (wi_at x (wstart a) && wi_at x (wend a)).
+  { inversion R; subst r. apply join_sound; [exact WJ| |left; exact GJ].
+    apply iwf_mk; [exact Hxs|]. apply wadd_val; [exact Hxs|].
+    apply wadd_val; [|exact K7]. apply wsub_val; apply wmul_val; assumption. }
+  inversion R; subst r. apply gamma_top; [reflexivity|exact Hv].
+Qed.
+
+Lemma default_sound w a x v y r : gamma w a v -> gamma w x y -> wfw w r ->
+  gamma w (default_implementation a x) r.
+Proof.
+  intros Ga Gx Hr. unfold default_implementation.
+  destruct (is_bottom a) eqn:Ba; [elim (gamma_bot w a v Ba Ga)|].
+  destruct (is_bottom x) eqn:Bx; [elim (gamma_bot w x y Bx Gx)|].
+  apply gamma_top; [reflexivity|exact Hr].
+Qed.
+
+Lemma singleton_sound w n : wfw w n -> gamma w (wi_single n) n.
+Proof.
+  intros H. apply gamma_mk; try exact H. rewrite Z.sub_diag. lia.
+Qed.
+
+Lemma gamma_single w n v : wfw w n -> gamma w (wi_single n) v -> is_top (wi_single n) = false -> v = n.
+Proof.
+  intros Hn G T. pose proof (gamma_range w (wi_single n) v eq_refl T Hn Hn G) as R. simpl in R.
+  destruct G as [Hv _]. pose proof (wfw_range _ _ Hn) as [Hw Rn]. pose proof (wfw_range _ _ Hv) as [_ Rv].
+  rewrite Z.sub_diag, Z.mod_0_l in R by (apply Z.pow_nonzero; lia).
+  destruct (msub_cases (2 ^ w) (wn v) (wn n) Rv Rn) as [[E ?]|[E ?]]; rewrite E in R; try lia.
+  apply wrapint_eq; [destruct Hv as [_ ->]; destruct Hn as [_ ->]; reflexivity|lia].
+Qed.
+
+(* mk_winterval: the number (modulo 2^w) is a member *)
+Lemma mk_winterval1_sound n w r : mk_winterval1 n w = Some r ->
+  forall x, of_z n w = Some x -> gamma w r x.
+Proof.
+  unfold mk_winterval1. intros R x X. pose proof (of_z_spec n w) as S. rewrite X in S.
+  destruct S as (Hw & Hn & Wx & Ex & Vx).
+  assert (fits_wrapint n w = true) as F by (apply fits_wrapint_spec; lia). rewrite F, X in R.
+  cbn [obind] in R. inversion R; subst r. apply singleton_sound. split; assumption.
+Qed.
+
+(* ---------------------------------------------------------------- cuts at the poles *)
+
+
+(* is_top by comparisons of the representatives *)
+Lemma is_top_cmp w i : wbot i = false -> wfw w (wstart i) -> wfw w (wend i) ->
+  is_top i = (wn (wstart i) =? wn (wend i) + 1) || ((wn (wstart i) =? 0) && (wn (wend i) =? 2 ^ w - 1)).
+Proof.
+  intros B Hs He. rewrite (is_top_range w) by assumption.
+  pose proof (wfw_range _ _ Hs) as [Hw Rs]. pose proof (wfw_range _ _ He) as [_ Re].
+  destruct (msub_cases (2 ^ w) _ _ Re Rs) as [[-> ?]|[-> ?]]; dec_all.
+Qed.
+
+Definition range_nt (w : Z) (i : witv) : Prop :=
+  wbot i = false /\ is_top i = false /\ wfw w (wstart i) /\ wfw w (wend i).
+
+Lemma range_nt_mk w s e : wfw w s -> wfw w e -> is_top (wi_mk s e) = false -> range_nt w (wi_mk s e).
+Proof. intros. split; [reflexivity|]. split; [assumption|]. split; assumption. Qed.
+
+Lemma bitwidth_range w i : range_nt w i -> wi_bitwidth i = Some w.
+Proof.
+  intros (B & T & Hs & He). unfold wi_bitwidth, is_bottom. rewrite B, T.
+  f_equal. apply Hs.
+Qed.
+
+Lemma half_pow w : 1 <= w -> 2 ^ w = 2 * 2 ^ (w - 1) /\ 0 < 2 ^ (w - 1).
+Proof. intros. split; [apply pow2_split; lia|apply pow2_pos; lia]. Qed.
+
+(* unsigned_split cuts exactly the intervals that wrap around 2^w - 1 -> 0 *)
+Lemma unsigned_split_range w i : range_nt w i ->
+  unsigned_split i = Some (if wn (wstart i) <=? wn (wend i) then [i]
+                           else [wi_mk (wstart i) (get_unsigned_max w); wi_mk (get_unsigned_min w) (wend i)]).
+Proof.
+  intros R. pose proof R as (B & T & Hs & He). unfold unsigned_split, is_bottom. rewrite B.
+  rewrite (bitwidth_range w i R). cbn [obind].
+  pose proof (wfw_range _ _ Hs) as [Hw Rs]. pose proof (wfw_range _ _ He) as [_ Re].
+  destruct (umax_val w Hw) as [Hmax Vmax]. destruct (umin_val w Hw) as [Hmin Vmin].
+  pose proof T as T'. rewrite (is_top_cmp w) in T by assumption.
+  destruct (half_pow w ltac:(lia)) as [M2 HP].
+  destruct (is_top (unsigned_limit w)) eqn:TL.
+  - assert (wi_leq (unsigned_limit w) i = false) as ->.
+    { unfold wi_leq, is_bottom. rewrite B, T', TL. reflexivity. }
+    rewrite (is_top_cmp w) in TL by (try reflexivity; assumption). cbn [unsigned_limit wi_mk wstart wend] in TL.
+    rewrite Vmax, Vmin in TL. clear T'. dec_all.
+  - rewrite (leq_inb w) by (try assumption; reflexivity).
+    cbn [unsigned_limit wi_mk wstart wend]. rewrite Vmax, Vmin. unfold inb.
+    clear TL T'. dec_all.
+Qed.
+
+(* signed_split cuts exactly the intervals that contain the step 2^(w-1) - 1 -> 2^(w-1) *)
+Definition cross_north (w : Z) (i : witv) : bool :=
+  let s := wn (wstart i) in let e := wn (wend i) in let H := 2 ^ (w - 1) in
+  if s <=? e then (s <=? H - 1) && (H <=? e) else (s <=? H - 1) || (H <=? e).
+
+Lemma signed_split_range w i : range_nt w i ->
+  signed_split i = Some (if cross_north w i
+                         then [wi_mk (wstart i) (get_signed_max w); wi_mk (get_signed_min w) (wend i)]
+                         else [i]).
+Proof.
+  intros R. pose proof R as (B & T & Hs & He). unfold signed_split, is_bottom. rewrite B.
+  rewrite (bitwidth_range w i R). cbn [obind].
+  pose proof (wfw_range _ _ Hs) as [Hw Rs]. pose proof (wfw_range _ _ He) as [_ Re].
+  destruct (smax_val w Hw) as [Hmax Vmax]. destruct (smin_val w Hw) as [Hmin Vmin].
+  destruct (half_pow w ltac:(lia)) as [M2 HP].
+  pose proof T as T'. rewrite (is_top_cmp w) in T by assumption. unfold cross_north.
+  destruct (is_top (signed_limit w)) eqn:TL.
+  - assert (wi_leq (signed_limit w) i = false) as ->.
+    { unfold wi_leq, is_bottom. rewrite B, T', TL. reflexivity. }
+    rewrite (is_top_cmp w) in TL by (try reflexivity; assumption). cbn [signed_limit wi_mk wstart wend] in TL.
+    rewrite Vmax, Vmin in TL. clear T'. dec_all.
+  - rewrite (leq_inb w) by (try assumption; reflexivity).
+    cbn [signed_limit wi_mk wstart wend]. rewrite Vmax, Vmin. unfold inb.
+    clear TL T'. dec_all.
+Qed.
+
+
+(* a piece that crosses neither pole *)
+Definition hemi (w : Z) (p : witv) : Prop :=
+  wbot p = false /\ wfw w (wstart p) /\ wfw w (wend p) /\
+  wn (wstart p) <= wn (wend p) /\ (wn (wend p) < 2 ^ (w - 1) \/ 2 ^ (w - 1) <= wn (wstart p)).
+(* a piece that does not cross the south pole *)
+Definition sfree (w : Z) (p : witv) : Prop :=
+  wbot p = false /\ wfw w (wstart p) /\ wfw w (wend p) /\ wn (wstart p) <= wn (wend p).
+
+Lemma hemi_sfree w p : hemi w p -> sfree w p.
+Proof. intros (A & B & C & D & _). split; [exact A|]. split; [exact B|]. split; [exact C|exact D]. Qed.
+
+Definition inp (v : Z) (p : witv) : bool := inb (wn (wstart p)) (wn (wend p)) v.
+
+Lemma gamma_of_inp w p v : wbot p = false -> wfw w (wstart p) -> wfw w (wend p) -> wfw w v ->
+  inp (wn v) p = true -> gamma w p v.
+Proof.
+  intros B Hs He Hv I. split; [exact Hv|].
+  destruct (is_top p) eqn:T; [apply at_top; [exact B|exact T]|].
+  rewrite (at_inb w) by assumption. exact I.
+Qed.
+
+Lemma exists_of_existsb w l v : wfw w v ->
+  Forall (fun p => wbot p = false /\ wfw w (wstart p) /\ wfw w (wend p)) l ->
+  existsb (inp (wn v)) l = true -> Exists (fun p => gamma w p v) l.
+Proof.
+  intros Hv F. induction F as [|p l (B & Hs & He) F IH]; simpl; [discriminate|].
+  intros E. apply orb_true_iff in E. destruct E as [E|E].
+  - left. apply gamma_of_inp; assumption.
+  - right. apply IH. exact E.
+Qed.
+
+Lemma sfree_not_top w p : sfree w p -> wn (wstart p) <> 0 \/ wn (wend p) <> 2 ^ w - 1 -> is_top p = false.
+Proof.
+  intros (B & Hs & He & L) N. rewrite (is_top_cmp w) by assumption. dec_all.
+Qed.
+
+Lemma unsigned_split_spec w i : range_nt w i ->
+  exists l, unsigned_split i = Some l /\ Forall (sfree w) l /\
+            (forall v, gamma w i v -> existsb (inp (wn v)) l = true).
+Proof.
+  intros R. pose proof R as (B & T & Hs & He). rewrite (unsigned_split_range w i R).
+  pose proof (wfw_range _ _ Hs) as [Hw Rs]. pose proof (wfw_range _ _ He) as [_ Re].
+  destruct (umax_val w Hw) as [Hmax Vmax]. destruct (umin_val w Hw) as [Hmin Vmin].
+  eexists; split; [reflexivity|].
+  destruct (Z.leb_spec (wn (wstart i)) (wn (wend i))) as [L|L].
+  - split.
+    + constructor; [|constructor]. split; [exact B|]. split; [exact Hs|]. split; [exact He|exact L].
+    + intros v G. pose proof (gamma_inb w i v B T Hs He G) as I. cbn [existsb]. unfold inp. rewrite I. reflexivity.
+  - split.
+    + constructor; [|constructor; [|constructor]]; (split; [reflexivity|]); cbn [wi_mk wstart wend];
+        (split; [assumption|]); (split; [assumption|]); lia.
+    + intros v G. pose proof (gamma_inb w i v B T Hs He G) as I. pose proof (wfw_range _ _ (proj1 G)) as [_ Rv].
+      cbn [existsb]. unfold inp. cbn [wi_mk wstart wend]. rewrite Vmax, Vmin.
+      unfold inb in *. dec_all.
+Qed.
+
+Lemma signed_split_spec w i : range_nt w i ->
+  exists l, signed_split i = Some l /\ Forall (range_nt w) l /\
+            Forall (fun p => cross_north w p = false) l /\
+            (forall v, gamma w i v -> existsb (inp (wn v)) l = true).
+Proof.
+  intros R. pose proof R as (B & T & Hs & He). rewrite (signed_split_range w i R).
+  pose proof (wfw_range _ _ Hs) as [Hw Rs]. pose proof (wfw_range _ _ He) as [_ Re].
+  destruct (smax_val w Hw) as [Hmax Vmax]. destruct (smin_val w Hw) as [Hmin Vmin].
+  destruct (half_pow w ltac:(lia)) as [M2 HP].
+  eexists; split; [reflexivity|].
+  destruct (cross_north w i) eqn:CN.
+  - unfold cross_north in CN.
+    assert (is_top (wi_mk (wstart i) (get_signed_max w)) = false) as T1.
+    { rewrite (is_top_cmp w) by (try reflexivity; assumption). cbn [wi_mk wstart wend]. rewrite Vmax.
+      rewrite (is_top_cmp w) in T by assumption. dec_all. }
+    assert (is_top (wi_mk (get_signed_min w) (wend i)) = false) as T2.
+    { rewrite (is_top_cmp w) by (try reflexivity; assumption). cbn [wi_mk wstart wend]. rewrite Vmin.
+      rewrite (is_top_cmp w) in T by assumption. dec_all. }
+    split; [constructor; [|constructor; [|constructor]]; apply range_nt_mk; assumption|].
+    split.
+    + constructor; [|constructor; [|constructor]]; unfold cross_north; cbn [wi_mk wstart wend];
+        rewrite ?Vmax, ?Vmin; dec_all.
+    + intros v G. pose proof (gamma_inb w i v B T Hs He G) as I. pose proof (wfw_range _ _ (proj1 G)) as [_ Rv].
+      cbn [existsb]. unfold inp. cbn [wi_mk wstart wend]. rewrite Vmax, Vmin.
+      unfold inb in *. clear T1 T2. dec_all.
+  - split; [constructor; [exact R|constructor]|].
+    split; [constructor; [exact CN|constructor]|].
+    intros v G. pose proof (gamma_inb w i v B T Hs He G) as I. cbn [existsb]. unfold inp. rewrite I. reflexivity.
+Qed.
+
+Lemma unsigned_split_hemi w i : range_nt w i -> cross_north w i = false ->
+  exists l, unsigned_split i = Some l /\ Forall (hemi w) l /\
+            (forall v, gamma w i v -> existsb (inp (wn v)) l = true).
+Proof.
+  intros R CN. pose proof R as (B & T & Hs & He). rewrite (unsigned_split_range w i R).
+  pose proof (wfw_range _ _ Hs) as [Hw Rs]. pose proof (wfw_range _ _ He) as [_ Re].
+  destruct (umax_val w Hw) as [Hmax Vmax]. destruct (umin_val w Hw) as [Hmin Vmin].
+  destruct (half_pow w ltac:(lia)) as [M2 HP].
+  eexists; split; [reflexivity|]. unfold cross_north in CN.
+  destruct (Z.leb_spec (wn (wstart i)) (wn (wend i))) as [L|L].
+  - split.
+    + constructor; [|constructor]. split; [exact B|]. split; [exact Hs|]. split; [exact He|]. split; [exact L|].
+      dec_all; lia.
+    + intros v G. pose proof (gamma_inb w i v B T Hs He G) as I. cbn [existsb]. unfold inp. rewrite I. reflexivity.
+  - split.
+    + constructor; [|constructor; [|constructor]]; (split; [reflexivity|]); cbn [wi_mk wstart wend];
+        (split; [assumption|]); (split; [assumption|]); rewrite ?Vmax, ?Vmin; dec_all; lia.
+    + intros v G. pose proof (gamma_inb w i v B T Hs He G) as I. pose proof (wfw_range _ _ (proj1 G)) as [_ Rv].
+      cbn [existsb]. unfold inp. cbn [wi_mk wstart wend]. rewrite Vmax, Vmin.
+      unfold inb in *. clear CN. dec_all.
+Qed.
+
+Lemma existsb_app_l {A} (f : A -> bool) l1 l2 : existsb f l1 = true -> existsb f (l1 ++ l2) = true.
+Proof. intros H. rewrite existsb_app, H. reflexivity. Qed.
+Lemma existsb_app_r {A} (f : A -> bool) l1 l2 : existsb f l2 = true -> existsb f (l1 ++ l2) = true.
+Proof. intros H. rewrite existsb_app, H. apply orb_true_r. Qed.
+
+Lemma hemi_gamma w p v : hemi w p -> wfw w v -> inp (wn v) p = true -> gamma w p v.
+Proof. intros (B & Hs & He & _) Hv I. apply gamma_of_inp; assumption. Qed.
+
+Lemma split_all_hemi w l :
+  Forall (range_nt w) l -> Forall (fun p => cross_north w p = false) l ->
+  exists l', split_all unsigned_split l = Some l' /\ Forall (hemi w) l' /\
+             (forall v, wfw w v -> existsb (inp (wn v)) l = true -> existsb (inp (wn v)) l' = true).
+Proof.
+  intros F1 F2. induction l as [|p l IH].
+  - exists []. split; [reflexivity|]. split; [constructor|]. intros v _ H. exact H.
+  - inversion F1 as [|? ? R1 F1']; subst. inversion F2 as [|? ? C1 F2']; subst.
+    destruct (unsigned_split_hemi w p R1 C1) as (lp & Ep & Hp & Cp).
+    destruct (IH F1' F2') as (lr & Er & Hr & Cr).
+    exists (lp ++ lr). cbn [split_all]. rewrite Ep. cbn [obind]. rewrite Er. cbn [obind].
+    split; [reflexivity|]. split; [apply Forall_app; split; assumption|].
+    intros v Hv E. cbn [existsb] in E. apply orb_true_iff in E. destruct E as [E|E].
+    + apply existsb_app_l. apply Cp. destruct R1 as (B & T & Hs & He). apply gamma_of_inp; assumption.
+    + apply existsb_app_r. apply Cr; assumption.
+Qed.
+
+Lemma sus_split_spec w i : range_nt w i ->
+  exists l, signed_and_unsigned_split i = Some l /\ Forall (hemi w) l /\
+            (forall v, gamma w i v -> existsb (inp (wn v)) l = true).
+Proof.
+  intros R. destruct (signed_split_spec w i R) as (ls & Es & F1 & F2 & Cs).
+  destruct (split_all_hemi w ls F1 F2) as (l & El & Hl & Cl).
+  exists l. unfold signed_and_unsigned_split. rewrite Es. cbn [obind].
+  split; [exact El|]. split; [exact Hl|].
+  intros v G. apply Cl; [apply G|]. apply Cs. exact G.
+Qed.
+
+(* ---------------------------------------------------------------- multiplication *)
+
+
+Lemma interval_mod_Z M lo hi p : 0 < M -> lo <= p <= hi -> hi - lo < M ->
+  (p mod M - lo mod M) mod M <= (hi mod M - lo mod M) mod M.
+Proof.
+  intros HM Hp Hd. rewrite <- !Zminus_mod. rewrite !Z.mod_small by lia. lia.
+Qed.
+
+Lemma sfree_bounds w a v : sfree w a -> gamma w a v -> wn (wstart a) <= wn v <= wn (wend a).
+Proof.
+  intros (B & Hs & He & L) G. pose proof (wfw_range _ _ (proj1 G)) as [Hw Rv].
+  destruct (is_top a) eqn:T.
+  - rewrite (is_top_cmp w) in T by assumption. dec_all; lia.
+  - pose proof (gamma_inb w a v B T Hs He G) as I. unfold inb in I. dec_all; lia.
+Qed.
+
+Lemma unsigned_mul_sound w a x v y : sfree w a -> sfree w x -> gamma w a v -> gamma w x y ->
+  gamma w (unsigned_mul a x) (wmul v y).
+Proof.
+  intros Fa Fx Ga Gx. pose proof (sfree_bounds w a v Fa Ga) as Bv. pose proof (sfree_bounds w x y Fx Gx) as By.
+  destruct Fa as (Ba & Hs & He & La). destruct Fx as (Bx & Hxs & Hxe & Lx).
+  assert (wfw w v) as Hv by apply Ga. assert (wfw w y) as Hy by apply Gx.
+  destruct (wmul_val w v y Hv Hy) as [Hr Vr].
+  pose proof (wfw_range _ _ Hs) as [Hw Rs]. pose proof (wfw_range _ _ He) as [_ Re].
+  pose proof (wfw_range _ _ Hxs) as [_ Rxs]. pose proof (wfw_range _ _ Hxe) as [_ Rxe].
+  unfold unsigned_mul, get_unsigned_bignum.
+  assert (get_bitwidth (wstart a) = w) as -> by apply Hs.
+  destruct (umax_val w Hw) as [_ ->].
+  destruct (Z.ltb_spec (wn (wend a) * wn (wend x) - wn (wstart a) * wn (wstart x)) (2 ^ w - 1)) as [C|C];
+    [|apply gamma_top; [reflexivity|exact Hr]].
+  destruct (wmul_val w _ _ Hs Hxs) as [Hrs Vrs]. destruct (wmul_val w _ _ He Hxe) as [Hre Vre].
+  apply gamma_mk; [exact Hrs|exact Hre|exact Hr|]. rewrite Vr, Vrs, Vre.
+  apply interval_mod_Z; [apply pow2_pos; lia| |lia]. nia.
+Qed.
+
+Lemma to_sZ_val w x : wfw w x -> to_sZ x = if wn x <? 2 ^ (w - 1) then wn x else wn x - 2 ^ w.
+Proof. intros [_ E]. unfold to_sZ, signed_of. rewrite E. reflexivity. Qed.
+
+Lemma msb_val w x : wfw w x -> msb x = (2 ^ (w - 1) <=? wn x).
+Proof. intros [W E]. rewrite msb_spec by exact W. rewrite E. reflexivity. Qed.
+
+Lemma mod_sub_mul M a b k l : M <> 0 -> ((a - k * M) * (b - l * M)) mod M = (a * b) mod M.
+Proof.
+  intros HM. replace ((a - k * M) * (b - l * M)) with (a * b + (k * l * M - a * l - k * b) * M) by ring.
+  apply Z.mod_add. exact HM.
+Qed.
+
+Lemma signed_mul_sound w a x v y : sfree w a -> sfree w x -> gamma w a v -> gamma w x y ->
+  gamma w (signed_mul a x) (wmul v y).
+Proof.
+  intros Fa Fx Ga Gx. pose proof (sfree_bounds w a v Fa Ga) as Bv. pose proof (sfree_bounds w x y Fx Gx) as By.
+  pose proof (unsigned_mul_sound w a x v y Fa Fx Ga Gx) as US.
+  destruct Fa as (Ba & Hs & He & La). destruct Fx as (Bx & Hxs & Hxe & Lx).
+  assert (wfw w v) as Hv by apply Ga. assert (wfw w y) as Hy by apply Gx.
+  destruct (wmul_val w v y Hv Hy) as [Hr Vr].
+  pose proof (wfw_range _ _ Hs) as [Hw Rs]. pose proof (wfw_range _ _ He) as [_ Re].
+  pose proof (wfw_range _ _ Hxs) as [_ Rxs]. pose proof (wfw_range _ _ Hxe) as [_ Rxe].
+  destruct (half_pow w ltac:(lia)) as [M2 HP].
+  assert (2 ^ w <> 0) as MN by lia.
+  unfold signed_mul.
+  rewrite !get_signed_bignum_spec by (apply Hs || apply He || apply Hxs || apply Hxe).
+  rewrite (to_sZ_val w _ Hs), (to_sZ_val w _ He), (to_sZ_val w _ Hxs), (to_sZ_val w _ Hxe).
+  rewrite (msb_val w _ Hs), (msb_val w _ He), (msb_val w _ Hxs), (msb_val w _ Hxe).
+  unfold get_unsigned_bignum. assert (get_bitwidth (wstart a) = w) as -> by apply Hs.
+  destruct (umax_val w Hw) as [_ ->].
+  destruct (wmul_val w _ _ Hs Hxs) as [Hss Vss]. destruct (wmul_val w _ _ He Hxe) as [Hee Vee].
+  destruct (wmul_val w _ _ Hs Hxe) as [Hse Vse]. destruct (wmul_val w _ _ He Hxs) as [Hes Ves].
+  set (HH := 2 ^ (w - 1)) in *. set (M := 2 ^ w) in *.
+  destruct (Z.leb_spec HH (wn (wstart a))) as [C1|C1]; destruct (Z.leb_spec HH (wn (wend a))) as [C2|C2];
+  destruct (Z.leb_spec HH (wn (wstart x))) as [C3|C3]; destruct (Z.leb_spec HH (wn (wend x))) as [C4|C4];
+  cbn [eqb andb orb negb]; try exact US; try (apply gamma_top; [reflexivity|exact Hr]); try lia.
+  - (* both negative *)
+    destruct (Z.ltb_spec (wn (wstart a)) HH); [lia|]. destruct (Z.ltb_spec (wn (wend a)) HH); [lia|].
+    destruct (Z.ltb_spec (wn (wstart x)) HH); [lia|]. destruct (Z.ltb_spec (wn (wend x)) HH); [lia|].
+    match goal with |- context [if ?c then _ else _] => destruct c eqn:OV end;
+      [|apply gamma_top; [reflexivity|exact Hr]].
+    apply Z.ltb_lt in OV.
+    apply gamma_mk; [exact Hee|exact Hss|exact Hr|]. rewrite Vr, Vee, Vss.
+    rewrite <- (mod_sub_mul M (wn v) (wn y) 1 1), <- (mod_sub_mul M (wn (wend a)) (wn (wend x)) 1 1),
+            <- (mod_sub_mul M (wn (wstart a)) (wn (wstart x)) 1 1) by exact MN.
+    apply interval_mod_Z; [lia| |lia]. nia.
+  - (* a negative, x non-negative *)
+    destruct (Z.ltb_spec (wn (wstart a)) HH); [lia|]. destruct (Z.ltb_spec (wn (wend a)) HH); [lia|].
+    destruct (Z.ltb_spec (wn (wstart x)) HH); [|lia]. destruct (Z.ltb_spec (wn (wend x)) HH); [|lia].
+    match goal with |- context [if ?c then _ else _] => destruct c eqn:OV end;
+      [|apply gamma_top; [reflexivity|exact Hr]].
+    apply Z.ltb_lt in OV.
+    apply gamma_mk; [exact Hse|exact Hes|exact Hr|]. rewrite Vr, Vse, Ves.
+    rewrite <- (mod_sub_mul M (wn v) (wn y) 1 0), <- (mod_sub_mul M (wn (wend a)) (wn (wstart x)) 1 0),
+            <- (mod_sub_mul M (wn (wstart a)) (wn (wend x)) 1 0) by exact MN.
+    apply interval_mod_Z; [lia| |lia]. nia.
+  - (* a non-negative, x negative *)
+    destruct (Z.ltb_spec (wn (wstart a)) HH); [|lia]. destruct (Z.ltb_spec (wn (wend a)) HH); [|lia].
+    destruct (Z.ltb_spec (wn (wstart x)) HH); [lia|]. destruct (Z.ltb_spec (wn (wend x)) HH); [lia|].
+    match goal with |- context [if ?c then _ else _] => destruct c eqn:OV end;
+      [|apply gamma_top; [reflexivity|exact Hr]].
+    apply Z.ltb_lt in OV.
+    apply gamma_mk; [exact Hes|exact Hse|exact Hr|]. rewrite Vr, Vse, Ves.
+    rewrite <- (mod_sub_mul M (wn v) (wn y) 0 1), <- (mod_sub_mul M (wn (wend a)) (wn (wstart x)) 0 1),
+            <- (mod_sub_mul M (wn (wstart a)) (wn (wend x)) 0 1) by exact MN.
+    apply interval_mod_Z; [lia| |lia]. nia.
+Qed.
+
+
+Lemma iwf_unsigned_mul w a x : sfree w a -> sfree w x -> iwf w (unsigned_mul a x).
+Proof.
+  intros (_ & Hs & He & _) (_ & Hxs & Hxe & _). unfold unsigned_mul.
+  destruct (_ <? _); [|apply iwf_top]. apply iwf_mk; eapply wmul_val; eassumption.
+Qed.
+
+Lemma iwf_signed_mul w a x : sfree w a -> sfree w x -> iwf w (signed_mul a x).
+Proof.
+  intros Fa Fx. pose proof (iwf_unsigned_mul w a x Fa Fx) as U.
+  destruct Fa as (_ & Hs & He & _). destruct Fx as (_ & Hxs & Hxe & _). unfold signed_mul.
+  repeat match goal with
+  | |- context [if ?c then _ else _] => destruct c
+  end; try exact U; try apply iwf_top; apply iwf_mk; eapply wmul_val; eassumption.
+Qed.
+
+(* exact_meet is only exact when the operands do not overlap partially (its last two
+   non-empty cases are unreachable and a partial overlap falls through to the empty list):
+   the configurations produced by the multiplication are "one is top", "equal" and "each
+   contains both bounds of the other" *)
+Definition meet_cfg (a x : witv) : Prop :=
+  is_top a = true \/ is_top x = true \/ wi_eq a x = true \/
+  (wi_at x (wstart a) && wi_at x (wend a) && wi_at a (wstart x) && wi_at a (wend x) = true).
+
+Lemma exact_meet_sound w a x r : iwf w a -> iwf w x -> meet_cfg a x -> gamma w a r -> gamma w x r ->
+  Exists (fun p => gamma w p r) (exact_meet a x).
+Proof.
+  intros Wa Wx Cfg Ga Gx. unfold exact_meet.
+  destruct (is_bottom a) eqn:Ba; [elim (gamma_bot w a r Ba Ga)|].
+  destruct (is_bottom x) eqn:Bx; [elim (gamma_bot w x r Bx Gx)|]. cbn [orb].
+  destruct (wi_eq a x || is_top a) eqn:C0; [left; exact Gx|].
+  apply orb_false_iff in C0. destruct C0 as [NE Ta].
+  destruct (is_top x) eqn:Tx; [left; exact Ga|].
+  destruct Cfg as [C|[C|[C|C]]]; try congruence. rewrite C.
+  destruct (iwf_range w a Wa Ba Ta) as (Ba' & Hs & He). destruct (iwf_range w x Wx Bx Tx) as (Bx' & Hxs & Hxe).
+  assert (wfw w r) as Hr by apply Ga.
+  pose proof (gamma_inb w a r Ba' Ta Hs He Ga) as Ia. pose proof (gamma_inb w x r Bx' Tx Hxs Hxe Gx) as Ix.
+  apply (exists_of_existsb w); [exact Hr| |].
+  - repeat (apply Forall_cons || apply Forall_nil); cbn [wi_mk wstart wend wbot];
+      (split; [reflexivity || assumption|split; assumption]).
+  - repeat rewrite (at_inb w) in C by assumption. zranges.
+    cbn [existsb]; unfold inp; cbn [wi_mk wstart wend];
+    clear Wa Wx Ga Gx Ba Bx Ta Tx Ba' Bx' Hs He Hxs Hxe Hr NE; unfold inb in *; dec_all.
+Qed.
+
+
+Lemma mod_diff_eq M a b d k : 0 < M -> 0 <= d < M -> a - b = d + k * M ->
+  (a mod M - b mod M) mod M = d.
+Proof.
+  intros HM Hd E. rewrite <- Zminus_mod, E, Z.mod_add by lia. apply Z.mod_small. exact Hd.
+Qed.
+
+Lemma at_mk_true w A B C : wfw w A -> wfw w B -> wfw w C ->
+  (wn C - wn A) mod 2 ^ w <= (wn B - wn A) mod 2 ^ w -> wi_at (wi_mk A B) C = true.
+Proof. intros HA HB HC H. apply (gamma_mk w A B C HA HB HC H). Qed.
+
+Lemma at_start i : is_bottom i = false -> wfw (ww (wstart i)) (wstart i) -> wfw (ww (wstart i)) (wend i) ->
+  wi_at i (wstart i) = true.
+Proof.
+  intros B Hs He. destruct (is_top i) eqn:T; [apply at_top; assumption|].
+  rewrite (at_range (ww (wstart i))) by assumption.
+  apply Z.leb_le. rewrite Z.sub_diag, Z.mod_0_l.
+  - apply Z.mod_pos_bound. apply pow2_pos. destruct Hs as [[? _] _]. lia.
+  - apply Z.pow_nonzero; [lia|]. destruct Hs as [[? _] _]. lia.
+Qed.
+
+Lemma leq_refl w a : iwf w a -> is_bottom a = false -> wi_leq a a = true.
+Proof.
+  intros W B. unfold wi_leq. destruct (is_top a) eqn:T; [reflexivity|]. rewrite B. cbn [orb].
+  unfold weq. rewrite !Z.eqb_refl. reflexivity.
+Qed.
+
+Lemma eq_refl_itv w a : iwf w a -> is_bottom a = false -> wi_eq a a = true.
+Proof. intros W B. unfold wi_eq. rewrite (leq_refl w a W B). reflexivity. Qed.
+
+Lemma cfg_swap w p q : wfw w p -> wfw w q -> meet_cfg (wi_mk q p) (wi_mk p q).
+Proof.
+  intros Hp Hq. right. right. right. cbn [wi_mk wstart wend].
+  pose proof (wfw_range _ _ Hp) as [Hw Rp]. pose proof (wfw_range _ _ Hq) as [_ Rq].
+  assert (0 < 2 ^ w) as HM by (apply pow2_pos; lia).
+  rewrite !andb_true_iff. repeat split; apply (at_mk_true w); try assumption;
+    rewrite ?Z.sub_diag, ?Z.mod_0_l by lia; try lia; apply Z.mod_pos_bound; lia.
+Qed.
+
+Lemma mul_cfg w a x : sfree w a -> sfree w x -> meet_cfg (signed_mul a x) (unsigned_mul a x).
+Proof.
+  intros Fa Fx. pose proof (iwf_unsigned_mul w a x Fa Fx) as WU.
+  destruct Fa as (Ba & Hs & He & La). destruct Fx as (Bx & Hxs & Hxe & Lx).
+  pose proof (wfw_range _ _ Hs) as [Hw Rs]. pose proof (wfw_range _ _ He) as [_ Re].
+  pose proof (wfw_range _ _ Hxs) as [_ Rxs]. pose proof (wfw_range _ _ Hxe) as [_ Rxe].
+  destruct (half_pow w ltac:(lia)) as [M2 HP].
+  destruct (is_top (unsigned_mul a x)) eqn:TU; [right; left; exact TU|].
+  assert (is_bottom (unsigned_mul a x) = false) as BU.
+  { unfold unsigned_mul. destruct (_ <? _); reflexivity. }
+  unfold signed_mul.
+  rewrite !get_signed_bignum_spec by (apply Hs || apply He || apply Hxs || apply Hxe).
+  rewrite (to_sZ_val w _ Hs), (to_sZ_val w _ He), (to_sZ_val w _ Hxs), (to_sZ_val w _ Hxe).
+  rewrite (msb_val w _ Hs), (msb_val w _ He), (msb_val w _ Hxs), (msb_val w _ Hxe).
+  assert (get_unsigned_bignum (get_unsigned_max (get_bitwidth (wstart a))) = 2 ^ w - 1) as UM.
+  { unfold get_unsigned_bignum. assert (get_bitwidth (wstart a) = w) as -> by apply Hs.
+    apply (umax_val w Hw). }
+  rewrite UM.
+  (* the unsigned product is not top: its overflow test passed *)
+  assert (unsigned_mul a x = wi_mk (wmul (wstart a) (wstart x)) (wmul (wend a) (wend x)) /\
+          wn (wend a) * wn (wend x) - wn (wstart a) * wn (wstart x) < 2 ^ w - 1) as [EU DU].
+  { unfold unsigned_mul in *. unfold get_unsigned_bignum in *. rewrite UM in *.
+    destruct (Z.ltb_spec (wn (wend a) * wn (wend x) - wn (wstart a) * wn (wstart x)) (2 ^ w - 1)).
+    - split; [reflexivity|assumption].
+    - discriminate TU. }
+  destruct (wmul_val w _ _ Hs Hxs) as [Hss Vss]. destruct (wmul_val w _ _ He Hxe) as [Hee Vee].
+  destruct (wmul_val w _ _ Hs Hxe) as [Hse Vse]. destruct (wmul_val w _ _ He Hxs) as [Hes Ves].
+  set (HH := 2 ^ (w - 1)) in *. set (M := 2 ^ w) in *.
+  destruct (Z.leb_spec HH (wn (wstart a))) as [C1|C1]; destruct (Z.leb_spec HH (wn (wend a))) as [C2|C2];
+  destruct (Z.leb_spec HH (wn (wstart x))) as [C3|C3]; destruct (Z.leb_spec HH (wn (wend x))) as [C4|C4];
+  cbn [eqb andb orb negb]; try (left; reflexivity); try lia.
+  - (* both negative: the bounds are swapped *)
+    match goal with |- context [if ?c then _ else _] => destruct c end; [|left; reflexivity].
+    rewrite EU. apply (cfg_swap w); assumption.
+  - (* a negative, x non-negative *)
+    match goal with |- context [if ?c then _ else _] => destruct c end; [|left; reflexivity].
+    rewrite EU.
+    assert (wn (wend x) = wn (wstart x) \/ wn (wend x) = wn (wstart x) + 1) as [D|D] by nia.
+    + (* singleton x: same interval *)
+      assert (wend x = wstart x) as ->.
+      { apply wrapint_eq; [destruct Hxe as [_ ->]; destruct Hxs as [_ ->]; reflexivity|exact D]. }
+      right. right. left. apply (eq_refl_itv w); [apply iwf_mk; assumption|reflexivity].
+    + right. right. right. cbn [wi_mk wstart wend]. rewrite !andb_true_iff.
+      assert (0 <= (wn (wend a) - wn (wstart a)) * wn (wstart x)) as Bn by nia.
+      repeat split; apply (at_mk_true w); try assumption; rewrite ?Vss, ?Vee, ?Vse, ?Ves; fold M.
+      * rewrite (mod_diff_eq M _ _ (wn (wstart a)) 0), (mod_diff_eq M _ _
+          (wn (wend a) * wn (wend x) - wn (wstart a) * wn (wstart x)) 0) by nia. nia.
+      * rewrite (mod_diff_eq M _ _ ((wn (wend a) - wn (wstart a)) * wn (wstart x)) 0), (mod_diff_eq M _ _
+          (wn (wend a) * wn (wend x) - wn (wstart a) * wn (wstart x)) 0) by nia. nia.
+      * rewrite (mod_diff_eq M _ _ (M - wn (wstart a)) (-1)),
+                (mod_diff_eq M _ _ ((wn (wend a) - wn (wstart a)) * wn (wstart x) - wn (wstart a) + M) (-1)) by nia.
+        nia.
+      * rewrite (mod_diff_eq M _ _ ((wn (wend a) - wn (wstart a)) * wn (wend x)) 0),
+                (mod_diff_eq M _ _ ((wn (wend a) - wn (wstart a)) * wn (wstart x) - wn (wstart a) + M) (-1)) by nia.
+        nia.
+  - (* a non-negative, x negative *)
+    match goal with |- context [if ?c then _ else _] => destruct c end; [|left; reflexivity].
+    rewrite EU.
+    assert (wn (wend a) = wn (wstart a) \/ wn (wend a) = wn (wstart a) + 1) as [D|D] by nia.
+    + assert (wend a = wstart a) as ->.
+      { apply wrapint_eq; [destruct He as [_ ->]; destruct Hs as [_ ->]; reflexivity|exact D]. }
+      right. right. left. apply (eq_refl_itv w); [apply iwf_mk; assumption|reflexivity].
+    + right. right. right. cbn [wi_mk wstart wend]. rewrite !andb_true_iff.
+      assert (0 <= wn (wstart a) * (wn (wend x) - wn (wstart x))) as Bn by nia.
+      repeat split; apply (at_mk_true w); try assumption; rewrite ?Vss, ?Vee, ?Vse, ?Ves; fold M.
+      * rewrite (mod_diff_eq M _ _ (wn (wstart x)) 0), (mod_diff_eq M _ _
+          (wn (wend a) * wn (wend x) - wn (wstart a) * wn (wstart x)) 0) by nia. nia.
+      * rewrite (mod_diff_eq M _ _ (wn (wstart a) * (wn (wend x) - wn (wstart x))) 0), (mod_diff_eq M _ _
+          (wn (wend a) * wn (wend x) - wn (wstart a) * wn (wstart x)) 0) by nia. nia.
+      * rewrite (mod_diff_eq M _ _ (M - wn (wstart x)) (-1)),
+                (mod_diff_eq M _ _ (wn (wstart a) * (wn (wend x) - wn (wstart x)) - wn (wstart x) + M) (-1)) by nia.
+        nia.
+      * rewrite (mod_diff_eq M _ _ (wn (wend a) * (wn (wend x) - wn (wstart x))) 0),
+                (mod_diff_eq M _ _ (wn (wstart a) * (wn (wend x) - wn (wstart x)) - wn (wstart x) + M) (-1)) by nia.
+        nia.
+  - (* both non-negative: signed_mul is unsigned_mul *)
+    right. right. left. apply (eq_refl_itv w); [exact WU|exact BU].
+Qed.
+
+
+Lemma iwf_exact_meet w a x : iwf w a -> iwf w x -> Forall (iwf w) (exact_meet a x).
+Proof.
+  intros Wa Wx. unfold exact_meet.
+  destruct (is_bottom a) eqn:Ba; [constructor|]. destruct (is_bottom x) eqn:Bx; [constructor|]. cbn [orb].
+  destruct (wi_eq a x || is_top a) eqn:C0; [constructor; [exact Wx|constructor]|].
+  apply orb_false_iff in C0. destruct C0 as [_ Ta].
+  destruct (is_top x) eqn:Tx; [constructor; [exact Wa|constructor]|].
+  destruct (iwf_range w a Wa Ba Ta) as (Ba' & Hs & He). destruct (iwf_range w x Wx Bx Tx) as (Bx' & Hxs & Hxe).
+  repeat match goal with
+  | |- context [if ?c then _ else _] => destruct c
+  end; repeat (apply Forall_cons || apply Forall_nil); try assumption; apply iwf_mk; assumption.
+Qed.
+
+Lemma sfree_not_bot w p : sfree w p -> is_bottom p = false.
+Proof. intros (B & _). exact B. Qed.
+
+Lemma reduced_sound w a x v y : sfree w a -> sfree w x -> gamma w a v -> gamma w x y ->
+  Exists (fun p => gamma w p (wmul v y)) (reduced_signed_unsigned_mul a x).
+Proof.
+  intros Fa Fx Ga Gx. unfold reduced_signed_unsigned_mul.
+  rewrite (sfree_not_bot w a Fa), (sfree_not_bot w x Fx). cbn [orb].
+  apply (exact_meet_sound w).
+  - apply iwf_signed_mul; assumption.
+  - apply iwf_unsigned_mul; assumption.
+  - apply (mul_cfg w); assumption.
+  - apply signed_mul_sound; assumption.
+  - apply unsigned_mul_sound; assumption.
+Qed.
+
+Lemma iwf_reduced w a x : sfree w a -> sfree w x -> Forall (iwf w) (reduced_signed_unsigned_mul a x).
+Proof.
+  intros Fa Fx. unfold reduced_signed_unsigned_mul.
+  destruct (is_bottom a || is_bottom x); [constructor|].
+  apply iwf_exact_meet; [apply iwf_signed_mul|apply iwf_unsigned_mul]; assumption.
+Qed.
+
+(* res | p1 | p2 | ... contains res and every pi *)
+Lemma join_all_spec w l : Forall (iwf w) l -> forall res, iwf w res ->
+  iwf w (join_all res l) /\
+  (forall r, gamma w res r -> gamma w (join_all res l) r) /\
+  (forall r, Exists (fun p => gamma w p r) l -> gamma w (join_all res l) r).
+Proof.
+  unfold join_all. induction 1 as [|p l Wp F IH]; intros res Wr; cbn [fold_left].
+  - split; [exact Wr|]. split; [auto|]. intros r E. inversion E.
+  - destruct (IH (wi_join res p) (iwf_join w res p Wr Wp)) as (I1 & I2 & I3).
+    split; [exact I1|]. split.
+    + intros r G. apply I2. apply join_sound; auto.
+    + intros r E. inversion E as [? ? G|? ? E']; subst.
+      * apply I2. apply join_sound; auto.
+      * apply I3. exact E'.
+Qed.
+
+Definition mul_inner (c : witv) (x_cuts : list witv) (res : witv) : witv :=
+  fold_left (fun res xc => join_all res (reduced_signed_unsigned_mul c xc)) x_cuts res.
+
+Lemma mul_inner_spec w c x_cuts : sfree w c -> Forall (sfree w) x_cuts -> forall res, iwf w res ->
+  iwf w (mul_inner c x_cuts res) /\
+  (forall r, gamma w res r -> gamma w (mul_inner c x_cuts res) r) /\
+  (forall v y, gamma w c v -> Exists (fun xc => gamma w xc y) x_cuts ->
+               gamma w (mul_inner c x_cuts res) (wmul v y)).
+Proof.
+  intros Fc F. unfold mul_inner. induction F as [|xc l Fx F IH]; intros res Wr; cbn [fold_left].
+  - split; [exact Wr|]. split; [auto|]. intros v y _ E. inversion E.
+  - destruct (join_all_spec w _ (iwf_reduced w c xc Fc Fx) res Wr) as (J1 & J2 & J3).
+    destruct (IH _ J1) as (I1 & I2 & I3).
+    split; [exact I1|]. split.
+    + intros r G. apply I2, J2, G.
+    + intros v y Gv E. inversion E as [? ? G|? ? E']; subst.
+      * apply I2, J3. apply reduced_sound; assumption.
+      * apply I3; assumption.
+Qed.
+
+Definition mul_outer (cuts x_cuts : list witv) (res : witv) : witv :=
+  fold_left (fun res c => mul_inner c x_cuts res) cuts res.
+
+Lemma mul_outer_spec w cuts x_cuts : Forall (sfree w) cuts -> Forall (sfree w) x_cuts ->
+  forall res, iwf w res ->
+  iwf w (mul_outer cuts x_cuts res) /\
+  (forall r, gamma w res r -> gamma w (mul_outer cuts x_cuts res) r) /\
+  (forall v y, Exists (fun c => gamma w c v) cuts -> Exists (fun xc => gamma w xc y) x_cuts ->
+               gamma w (mul_outer cuts x_cuts res) (wmul v y)).
+Proof.
+  intros F Fx. unfold mul_outer. induction F as [|c l Fc F IH]; intros res Wr; cbn [fold_left].
+  - split; [exact Wr|]. split; [auto|]. intros v y E _. inversion E.
+  - destruct (mul_inner_spec w c x_cuts Fc Fx res Wr) as (J1 & J2 & J3).
+    destruct (IH _ J1) as (I1 & I2 & I3).
+    split; [exact I1|]. split.
+    + intros r G. apply I2, J2, G.
+    + intros v y E Ey. inversion E as [? ? G|? ? E']; subst.
+      * apply I2, J3; assumption.
+      * apply I3; assumption.
+Qed.
+
+Lemma hemi_forall_sfree w l : Forall (hemi w) l -> Forall (sfree w) l.
+Proof. intros F. eapply Forall_impl; [|exact F]. intros p. apply hemi_sfree. Qed.
+
+Lemma hemi_forall_base w l : Forall (hemi w) l ->
+  Forall (fun p => wbot p = false /\ wfw w (wstart p) /\ wfw w (wend p)) l.
+Proof. intros F. eapply Forall_impl; [|exact F]. intros p (A & B & C & _). auto. Qed.
+
+Lemma range_nt_of w i : iwf w i -> is_bottom i = false -> is_top i = false -> range_nt w i.
+Proof.
+  intros W B T. destruct (iwf_range w i W B T) as (B' & Hs & He).
+  split; [exact B'|]. split; [exact T|]. split; assumption.
+Qed.
+
+Theorem mul_sound w a x v y : iwf w a -> iwf w x -> gamma w a v -> gamma w x y ->
+  exists r, wi_mul a x = Some r /\ iwf w r /\ gamma w r (wmul v y).
+Proof.
+  intros Wa Wx Ga Gx. unfold wi_mul.
+  assert (wfw w v) as Hv by apply Ga. assert (wfw w y) as Hy by apply Gx.
+  destruct (wmul_val w v y Hv Hy) as [Hr _].
+  destruct (is_bottom a) eqn:Ba; [elim (gamma_bot w a v Ba Ga)|].
+  destruct (is_bottom x) eqn:Bx; [elim (gamma_bot w x y Bx Gx)|]. cbn [orb].
+  destruct (is_top a) eqn:Ta.
+  { exists wi_top. split; [reflexivity|]. split; [apply iwf_top|apply gamma_top; [reflexivity|exact Hr]]. }
+  destruct (is_top x) eqn:Tx.
+  { exists wi_top. split; [reflexivity|]. split; [apply iwf_top|apply gamma_top; [reflexivity|exact Hr]]. }
+  cbn [orb].
+  destruct (sus_split_spec w a (range_nt_of w a Wa Ba Ta)) as (cuts & Ec & Hc & Cc).
+  destruct (sus_split_spec w x (range_nt_of w x Wx Bx Tx)) as (x_cuts & Ex & Hx & Cx).
+  rewrite Ec, Ex. cbn [obind].
+  destruct (mul_outer_spec w cuts x_cuts (hemi_forall_sfree w _ Hc) (hemi_forall_sfree w _ Hx)
+              wi_bottom (iwf_bottom w)) as (I1 & I2 & I3).
+  eexists. split; [reflexivity|]. split; [exact I1|].
+  apply I3.
+  - apply (exists_of_existsb w); [exact Hv|apply hemi_forall_base; exact Hc|apply Cc; exact Ga].
+  - apply (exists_of_existsb w); [exact Hy|apply hemi_forall_base; exact Hx|apply Cx; exact Gx].
+Qed.
